@@ -1,6 +1,7 @@
 package harness
 
 import (
+	"fmt"
 	"sort"
 	"strings"
 
@@ -143,6 +144,13 @@ func genValidCfgOpt(t *rapid.T, o cfgOpts) Cfg {
 	nh := listLen(t, "nreqhdrs", 0, 5)
 	for i := 0; i < nh; i++ {
 		c.RequestHeaders = append(c.RequestHeaders, Str(pick(t, "reqhdr", reqHdrAtoms)))
+	}
+	if chance(t, "manyreqhdrs", 4) {
+		// a long allow-list (counts around 32, 64, 128 and 256 entries)
+		n := pick(t, "nmany", []int{31, 33, 63, 64, 65, 66, 100, 127, 129, 257})
+		for i := 0; i < n; i++ {
+			c.RequestHeaders = append(c.RequestHeaders, Str(fmt.Sprintf("X-Many-%03d", (i*37)%n)))
+		}
 	}
 	nr := listLen(t, "nreshdrs", 0, 3)
 	for i := 0; i < nr; i++ {
